@@ -78,6 +78,8 @@ func c17Base(c Candidate) *candidateBase {
 		return &v.candidateBase
 	case *CandidateRelay:
 		return &v.candidateBase
+	case *candidateBase:
+		return v
 	}
 
 	return nil
